@@ -70,21 +70,24 @@ structure TDefects where
       types; the VM's `OpCallFast` asserts exactly `func(...interface{}) interface{}` and panics with an
       interface conversion.  Repaired by 6ec68be -/
   fastInexact : Bool
+  /-- `p[f:t]` on a pointer to a slice (`*[]int`) is reported with the pointer type although the VM's
+      `slice` dereferences and yields a `[]int` -/
+  slicePtrKeepsPtr : Bool
   deriving DecidableEq, Repr
 
 /-- the pinned snapshot -/
-def TDefects.asWas : TDefects := ⟨true, true, true, true, true, true, true, true, true, true, true, true, true, true, true, true⟩
+def TDefects.asWas : TDefects := ⟨true, true, true, true, true, true, true, true, true, true, true, true, true, true, true, true, true⟩
 /-- /repo's current HEAD: after the `fix:` commits 76735a9 (located error first), b6f8e35 (`AsBool` on the
 nil type), 6162013 (numeric-only literal retyping), 106fb38 (closure with a nil-typed body), e2e7046 (`in`
 needs a usable key), 265c5fa (no slicing of maps), a03872c (computed map-literal key must be a string),
 911e74d (ConstantNode), 390c455 (type of a conditional), f1ac5c8 (slicing an array), 57c7777 (no retyping to an
 `interface{}` parameter), 6ec68be (`Fast` only for exactly `func(...interface{}) interface{}`).  The loose index rule and the static slice types of `filter`/`map` are pinned by
 /repo's own tests and remain, as does `combined` on interface operands. -/
-def TDefects.asIs : TDefects := ⟨false, true, false, false, true, false, false, false, false, false, true, false, true, false, false, false⟩
-def TDefects.repaired : TDefects := ⟨false, false, false, false, false, false, false, false, false, false, false, false, false, false, false, false⟩
+def TDefects.asIs : TDefects := ⟨false, true, false, false, true, false, false, false, false, false, true, false, true, false, false, false, true⟩
+def TDefects.repaired : TDefects := ⟨false, false, false, false, false, false, false, false, false, false, false, false, false, false, false, false, false⟩
 /-- intermediate flag sets used for self-tests against partially patched copies of the repository -/
-def TDefects.safeFix : TDefects := ⟨false, true, false, false, true, false, true, true, true, true, true, true, true, true, true, true⟩
-def TDefects.safeFix2 : TDefects := ⟨false, true, false, false, true, false, false, false, false, true, true, true, true, true, true, true⟩
+def TDefects.safeFix : TDefects := ⟨false, true, false, false, true, false, true, true, true, true, true, true, true, true, true, true, true⟩
+def TDefects.safeFix2 : TDefects := ⟨false, true, false, false, true, false, false, false, false, true, true, true, true, true, true, true, true⟩
 
 inductive Expect where
   | none | bool | int64 | float64
@@ -417,11 +420,13 @@ def sliceable (dt : TDefects) (t : OTy) : Bool :=
 def sliceResult (dt : TDefects) (t : OTy) : OTy :=
   if dt.arraySliceKeepsArrayType then t
   else match t.deref with
-    | some u => if u.kind == .array then u.elem?.map Ty.slice else t
+    | some u => if u.kind == .array then u.elem?.map Ty.slice else if dt.slicePtrKeepsPtr then t else some u
     | none => t
 
 /-- /repo HEAD plus the proposed patch /tmp/w/types/c03-fixes-3.patch (array slicing) -/
 def TDefects.safeFix3 : TDefects := { TDefects.asIs with arraySliceKeepsArrayType := false }
+/-- /repo HEAD plus the proposed patch /tmp/w/types/c03-fixes-4.patch (slicing through a pointer) -/
+def TDefects.safeFix4 : TDefects := { TDefects.asIs with slicePtrKeepsPtr := false }
 
 /-- the key of a map-literal pair -/
 def pairKeyRule (dt : TDefects) (kt : OTy) : Rule :=
